@@ -86,7 +86,7 @@ def step (d : DSt) (t : List String) : DSt × String :=
   | ["cfg", "stream", i, v] =>
     let on := v == "1"
     match i with
-    | "0" => finish d d.s       -- the Output stream carries the observations and stays attached
+    | "0" => finish { d with cfg := { d.cfg with sOut := on } } d.s
     | "1" => finish { d with cfg := { d.cfg with sWarn := on } } d.s
     | "2" => finish { d with cfg := { d.cfg with sDbg := on } } d.s
     | "3" => finish { d with cfg := { d.cfg with sErr := on } } d.s
